@@ -54,6 +54,18 @@ class UtilsMixin(MetadataDependent):
 
     def node_is_selected(self, node) -> bool:
         pos_to_match = self.node_position(node)
+        match node:
+            case cst.ClassDef():
+                # A class spans its whole body, which no single line matches:
+                # for line includes/excludes it stands where its header stands.
+                header_end = cast(
+                    CodeRange,
+                    self.get_metadata(
+                        PositionProvider,
+                        [node.name, *node.bases, *node.keywords][-1],
+                    ),
+                ).end
+                pos_to_match = CodeRange(start=pos_to_match.start, end=header_end)
         return self.filter_by_result(node) and self.filter_by_path_includes_or_excludes(
             pos_to_match
         )
